@@ -27,7 +27,7 @@ ASSUMPTIONS = ["no fault kind applies to this property; simulation contributes t
                "handles and minimised replayable histories",
                "bounds of an unknown coalition are only compared after they were written through a bound setter "
                "(their value after unset / reset is not specified by the property)"]
-PROBES = ["bulk_bounds_overlapping_known", "failed_precondition", "op_on_copy", "op_on_negation", "reset_after_bounds",
+PROBES = ["bulk_setter_fed_live_view_of_another_handle", "bulk_bounds_overlapping_known", "failed_precondition", "op_on_copy", "op_on_negation", "reset_after_bounds",
           "handles_3plus"]
 TIERS = {
     "quick": {"runs": 80000, "wall": 40, "batch": 48, "shrink_s": 40},
@@ -261,9 +261,20 @@ def run(sim: Sim) -> None:
                 model = h.lo if kind == "bulk_lower" else h.up
                 setter = h.g.set_lower_bounds if kind == "bulk_lower" else h.g.set_upper_bounds
                 if sim.flip(1, 3, "all-coalitions"):
-                    vals = [value(sim) for _ in range(N)]
+                    donor = others[sim.choose(len(others), "donor")][0] if others and sim.flip(1, 2, "live-view-argument") else None
+                    if donor is not None:
+                        # the argument is the live array another handle's getter returned
+                        arg = donor.g.get_upper_bounds() if sim.choose(2, "donor-column") else donor.g.get_lower_bounds()
+                        sim.probe("bulk_setter_fed_live_view_of_another_handle")
+                    else:
+                        arg = np.array([value(sim) for _ in range(N)], dtype=np.float64)
+                    vals = [float(x) for x in arg]
+                    keep = np.array(arg, copy=True)
                     sim.op(kind, hi, "all")
-                    setter(np.array(vals, dtype=np.float64))
+                    setter(arg)
+                    if not np.array_equal(np.asarray(arg), keep, equal_nan=True):
+                        sim.fail("C17.bulk_setter_modified_its_argument", {"n": n, "handle": h.kind, "op": kind,
+                                                                          "live_view_of": donor.kind if donor else None})
                     ids = list(range(N))
                 else:
                     ids = sim.subset(list(range(N)), "ids", 1, 2) or [N - 1]
